@@ -18,6 +18,7 @@ import (
 	"fmt"
 	"os"
 	"reflect"
+	"sort"
 	"strings"
 	"sync"
 	"time"
@@ -44,6 +45,12 @@ type read struct {
 
 // canonical text of a reply with its QueryMeta blanked
 func canon(reply any) string {
+	if is, ok := reply.(*structs.IndexedServices); ok {
+		// the tag list of a service is a set (the store collects it through a Go map)
+		for _, tags := range is.Services {
+			sort.Strings(tags)
+		}
+	}
 	v := reflect.ValueOf(reply).Elem()
 	if f := v.FieldByName("QueryMeta"); f.IsValid() && f.CanSet() {
 		f.Set(reflect.Zero(f.Type()))
